@@ -13,6 +13,8 @@ import (
 	"os"
 	"os/exec"
 	"path/filepath"
+	"runtime"
+	"runtime/debug"
 	"sort"
 	"strconv"
 	"strings"
@@ -253,6 +255,26 @@ func buildRequests(c *corpus, rng *vh.RNG, quick bool) []request {
 		}
 		p = processor.SearchParams{AST: mustParse(q), From: w[0], To: w[1], Limit: 5, AggQ: []processor.AggQuery{aq}, Order: seq.DocsOrder(qi % 2)}
 		reqs = append(reqs, request{kind: "agg", desc: fmt.Sprintf("agg q=%q func=%s field=%q groupBy=%q order=%d from=%d to=%d", q, fn, a[0], a[1], p.Order, w[0], w[1]), params: p})
+	}
+	// windows confined to the oldest / newest documents and around the LID block boundary: a token whose postings span
+	// several LID blocks then has whole chunks outside the window (the iterators' "continue reading blocks" paths)
+	if c.crosses["lids"] {
+		n := uint64(len(c.docs))
+		span := n / 3 * c.step
+		bnd := uint64(c.from) + (n-65536)/3*c.step // MID of the document at LID 65536
+		ws := [][2]uint64{{uint64(c.from), uint64(c.from) + span/60}, {uint64(c.to) - span/60, uint64(c.to)}, {bnd - 40*c.step, bnd + 40*c.step},
+			{uint64(c.from), bnd + 2000*c.step}, {bnd - 1000*c.step, uint64(c.to)}, {bnd + 5*c.step, bnd + 900*c.step}, {bnd - 900*c.step, bnd - 5*c.step}}
+		for qi, q := range []string{"grp:all", "half:lo", "half:hi", "par:even", "grp:all AND par:even", "half:lo OR half:hi", "level:error", "message:w3"} {
+			for wi, w := range ws {
+				for _, order := range []seq.DocsOrder{seq.DocsOrderDesc, seq.DocsOrderAsc} {
+					if quick && (qi+wi+int(order))%2 == 1 && qi >= 4 {
+						continue
+					}
+					p := processor.SearchParams{AST: mustParse(q), From: seq.MID(w[0]), To: seq.MID(w[1]), Limit: []int{4, 1 << 20}[(qi+wi)%2], WithTotal: true, Order: order}
+					reqs = append(reqs, request{kind: "search", desc: fmt.Sprintf("search q=%q order=%d limit=%d total=true from=%d to=%d (lid-block window)", q, order, p.Limit, w[0], w[1]), params: p})
+				}
+			}
+		}
 	}
 	// fetch lists: present, absent, duplicates, unsorted and sorted
 	n := len(c.docs)
@@ -646,6 +668,90 @@ func buildModelQueries(active *frac.Active, rng *vh.RNG, cor *corpus) []modelQue
 	return res
 }
 
+// ---------------------------------------------------------------- seal sequence in one process
+
+// runSeqCaseInProcess seals several fractions one after another in the same process (as the fraction manager does) and
+// re-checks every earlier freshly sealed (preloaded, never reloaded) fraction after each later seal: pooled writers,
+// shared buffers and caches must not leak from one seal into the tables of another fraction.
+func runSeqCaseInProcess(c sysCase, dir string) *sysResult {
+	res := &sysResult{Tags: map[string]int{}, Stats: map[string]string{}}
+	runtime.GOMAXPROCS(1)      // make sync.Pool reuse between the seals deterministic
+	debug.SetGCPercent(-1)     // a GC cycle would empty the pools
+	rng := vh.NewRNG(c.Seed)
+	indexer := frac.NewActiveIndexer(2, 2)
+	indexer.Start()
+	defer indexer.Stop()
+	cfg := &frac.Config{SkipSortDocs: c.SkipSort}
+	params := frac.SealParams{IDsZstdLevel: c.Zstd, LIDsZstdLevel: c.Zstd, TokenListZstdLevel: c.Zstd, DocsPositionsZstdLevel: c.Zstd,
+		TokenTableZstdLevel: c.Zstd, DocBlocksZstdLevel: c.Zstd, DocBlockSize: c.DocBlock}
+	type sealedFrac struct {
+		f    *frac.Sealed
+		reqs []request
+		want []string
+	}
+	var done []sealedFrac
+	nfr := 4
+	for k := 0; k < nfr; k++ {
+		cor := genCorpus("small", rng.Fork())
+		reqs := buildRequests(cor, rng.Fork(), true)
+		base := filepath.Join(dir, fmt.Sprintf("seq-db-c03-%d", k))
+		cs := newCacheSet(0)
+		active := frac.NewActive(base, indexer, readLimiter, cs.docs, cs.sort, cfg)
+		if err := ingest(active, cor.docs, 300); err != nil {
+			res.Notes = append(res.Notes, "ingest error: "+err.Error())
+			return res
+		}
+		want := make([]string, len(reqs))
+		for i, r := range reqs {
+			want[i] = answer(active, r)
+		}
+		pre, err := frac.Seal(active, params)
+		if err != nil {
+			res.Mismatches = append(res.Mismatches, sysMismatch{Req: -1, Desc: "frac.Seal", Forms: "seal", A: "ok expected", B: err.Error(), Class: "seal-error"})
+			return res
+		}
+		csB := newCacheSet(0)
+		sf := frac.NewSealedPreloaded(base, pre, readLimiter, csB.index, csB.docs, cfg)
+		active.Release()
+		done = append(done, sealedFrac{sf, reqs, want})
+		res.Stats[fmt.Sprintf("docblocks_%d", k)] = strconv.Itoa(len(sf.BlocksOffsets))
+		// every fraction sealed so far (the new one and all earlier ones) must still answer like its active form
+		for j, d := range done {
+			for i, r := range d.reqs {
+				got := answer(d.f, r)
+				res.Cases++
+				res.Tags["req="+r.kind]++
+				res.Tags[fmt.Sprintf("after-later-seals=%d", k-j)]++
+				if k > j && len(d.f.BlocksOffsets) > 1 {
+					res.Nontrivial++
+				}
+				if got != d.want[i] {
+					class := "earlier-sealed-fraction-changed-by-later-seal"
+					if j == k {
+						class = "sealed-vs-active-mismatch"
+					}
+					if strings.HasPrefix(got, "panic") {
+						class += "-panic"
+					}
+					if r.kind == "fetch" {
+						class = "fetch-" + class
+					}
+					res.Mismatches = append(res.Mismatches, sysMismatch{Req: i, Desc: fmt.Sprintf("fraction #%d after sealing #%d: %s", j, k, r.desc),
+						Forms: "active/preloaded", A: trunc(d.want[i]), B: trunc(got), Class: class})
+					break
+				}
+			}
+		}
+		if len(res.Mismatches) > 0 {
+			break
+		}
+	}
+	if len(res.Samples) == 0 {
+		res.Samples = append(res.Samples, c.String()+" :: 4 fractions sealed in a row, earlier ones re-checked")
+	}
+	return res
+}
+
 // ---------------------------------------------------------------- seal totality (token block size 0)
 
 func runBigTokensInProcess(spec string, dir string) *sysResult {
@@ -709,7 +815,11 @@ func oracleChildMain() bool {
 			os.RemoveAll(dir)
 			os.Exit(3)
 		}
-		res = runSysCaseInProcess(c, dir)
+		if c.Shape == "sealseq" {
+			res = runSeqCaseInProcess(c, dir)
+		} else {
+			res = runSysCaseInProcess(c, dir)
+		}
 	}
 	b, _ := json.Marshal(res)
 	fmt.Println("CHILD-RESULT " + string(b))
@@ -760,10 +870,14 @@ func crashSite(msg string) (string, string) {
 
 func mismatchSite(m sysMismatch) string {
 	switch {
+	case strings.Contains(m.Class, "earlier-sealed-fraction-changed-by-later-seal"):
+		return "frac/active_sealer.go:writeSealedFraction"
 	case strings.HasPrefix(m.Class, "fetch"):
 		return "frac/sealed_index.go:sealedFetchIndex"
 	case m.Class == "seal-error":
 		return "frac/active_sealer.go:Seal"
+	case strings.Contains(m.Class, "earlier-sealed-fraction-changed-by-later-seal"):
+		return "frac/active_sealer.go:writeSealedFraction"
 	}
 	return "frac/sealed_index.go:sealedDataProvider.Search"
 }
@@ -816,7 +930,7 @@ func collect(orc *vh.Oracle, rep *vh.Report, line string, timeout time.Duration)
 		}
 		seen[m.Class] = true
 		rl := line
-		if m.Req >= 0 {
+		if m.Req >= 0 && !strings.HasPrefix(line, "sys sealseq ") {
 			rl = strings.Replace(line, "req=-1", fmt.Sprintf("req=%d", m.Req), 1)
 		}
 		rep.Violate(vh.Violation{Site: mismatchSite(m), Class: m.Class,
@@ -846,6 +960,12 @@ func runSystemOracle(o vh.Opts, rng *vh.RNG, rep *vh.Report, tmp string) {
 		collect(orc, rep, c.String(), 10*time.Minute)
 	}
 	rep.AddOracle(orc)
+	seqo := vh.NewOracle("c03.seal-sequence", "four fractions are filled and sealed one after another in ONE process (GOMAXPROCS=1, GC off so that pooled writers are reused); after every seal the new and every earlier freshly sealed (preloaded, not reloaded) fraction must still answer every search / histogram / aggregation / fetch like its active form did; varied: SkipSortDocs, zstd level, doc block size (128..1024 bytes -> many doc blocks); non-trivial = an earlier fraction with > 1 doc block re-checked after a later seal")
+	for i := 0; i < o.Pick(2, 8); i++ {
+		c := sysCase{Shape: "sealseq", Seed: int64(rng.U64() >> 2), SkipSort: i%4 == 3, Zstd: zs[i%4], DocBlock: []int{256, 128, 1024}[i%3], CacheKB: 0, OnlyReq: -1}
+		collect(seqo, rep, c.String(), 10*time.Minute)
+	}
+	rep.AddOracle(seqo)
 	rep.AddChannel(searchChannel, o.Driver)
 	searchChannel = nil
 
